@@ -673,6 +673,20 @@ def gen_stream_op(rng):
         out = out[:rng.randrange(len(out) + 1)]
     return f"stream {hx(bytes(out))}"
 
+def gen_keep_op(rng):
+    """several (mostly well-formed) packets that the driver keeps alive while it goes on using the codec"""
+    ver = rng.choice([3, 4, 5, 5, 5])
+    pk = []
+    for _ in range(rng.choice([2, 2, 3, 4, 6])):
+        typ = rng.choice(TYPES + ["PUBLISH", "PUBLISH", "PUBLISH", "CONNECT", "SUBSCRIBE", "UNSUBSCRIBE", "SUBACK"])
+        data = gen_packet(rng, ver, typ, rng.choice([0.0, 0.0, 0.0, 0.05]))
+        if rng.random() < 0.08:
+            data = mutate(rng, data)
+        pk.append(data)
+    if rng.random() < 0.5:
+        pk.sort(key=len, reverse=True)      # later bodies fit into the buffers of earlier ones
+    return f"keep {ver} " + ",".join(hx(d) for d in pk)
+
 def gen_alloc_op(rng):
     t = rng.choice([1, 2, 3, 4, 5, 6, 7, 8, 9, 10, 11, 14, 15])
     fl = {3: rng.choice([0, 2, 4]), 6: 2, 8: 2, 10: 2}.get(t, 0)
@@ -684,7 +698,8 @@ def gen(rng):
     ops = []
     for _ in range(rng.choice([4, 8, 12])):
         r = rng.random()
-        if r < 0.62: ops.append(gen_dec_op(rng))
+        if r < 0.10: ops.append(gen_keep_op(rng))
+        elif r < 0.62: ops.append(gen_dec_op(rng))
         elif r < 0.78: ops.append(gen_valid_op(rng))
         elif r < 0.86: ops.append(gen_vbi_op(rng))
         elif r < 0.95: ops.append(gen_msg_op(rng))
@@ -910,6 +925,20 @@ def check_stream(op, o):
         return f"`{op}`: got `{o}`, the independent decoder frames the stream as {' '.join(exp)}"
     return None
 
+def check_keep(op, o):
+    f = op.split()
+    hexes = f[2].split(",")
+    if not o.startswith("keep "):
+        return f"`{op}`: `{o}`"
+    parts = o[5:].split(" | ")
+    if len(parts) != len(hexes):
+        return f"`{op}`: {len(parts)} answers for {len(hexes)} packets"
+    for i, (h, part) in enumerate(zip(hexes, parts)):
+        why = check_dec(f"dec {f[1]} {h}", part)
+        if why:
+            return f"`{op}`: packet #{i + 1}, kept alive across later codec calls: {why}"
+    return None
+
 def check_alloc(op, o):
     if "alloc=excess" in o:
         return f"`{op}`: the decoder allocated memory out of proportion to the {len(op.split()[2]) // 2} bytes supplied"
@@ -919,7 +948,8 @@ def check_alloc(op, o):
 
 CHECK = {"dec": check_dec, "vt": check_valid, "vf": check_valid, "v5": check_valid, "u8": check_valid,
          "rvt": check_valid, "rvf": check_valid, "rv5": check_valid, "vbi": check_vbi,
-         "evbi": check_vbi, "msg": check_msg, "mk": check_msg, "stream": check_stream, "alloc": check_alloc}
+         "evbi": check_vbi, "msg": check_msg, "mk": check_msg, "stream": check_stream, "alloc": check_alloc,
+         "keep": check_keep}
 
 def predicate(ops, out):
     if not ops:
